@@ -704,6 +704,86 @@ func genC19Reuse(r *rand.Rand) *c19ReuseInput {
 	return in
 }
 
+// genC19ReuseFamily: one sorter used for 2..4 tables of ONE key kind — no key at all, or the same
+// key columns — but of DIFFERENT widths, the way the doctor and re-ingest walk through the tables
+// of one ref after columns were added or dropped. The cells come from a tiny alphabet with the
+// empty cell, so rows of a wider table agree on every column a narrower table had and differ only
+// in the others (and the other way round): whatever the sorter derives from the shape of a table
+// (which columns identify a row, how wide a row is) has to be derived again for the next one.
+// Earlier uses mostly read their output (that is when the sorter works out the key), fit in memory
+// about half of the time, and are small, so that Reset sees every kind of previous state.
+func genC19ReuseFamily(r *rand.Rand) *c19ReuseInput {
+	in := &c19ReuseInput{}
+	nUses := 2 + r.Intn(3)
+	pk := []int{}
+	if r.Intn(3) == 0 {
+		for len(pk) == 0 {
+			pk = genPK(r, 1+r.Intn(3))
+		}
+	}
+	minW := 1
+	for _, p := range pk {
+		if p+1 > minW {
+			minW = p + 1
+		}
+	}
+	maxTotal := 0
+	prevW := 0
+	for i := 0; i < nUses; i++ {
+		u := c19Use{PK: append([]int{}, pk...)}
+		u.NCols = minW + r.Intn(4)
+		if u.NCols == prevW && r.Intn(4) != 0 {
+			// mostly a width other than the one before: one more or one less column
+			if u.NCols > minW && r.Intn(2) == 0 {
+				u.NCols--
+			} else {
+				u.NCols++
+			}
+		}
+		prevW = u.NCols
+		u.Removed = []int{}
+		if u.NCols > 1 && r.Intn(5) == 0 {
+			u.Removed = []int{r.Intn(u.NCols)}
+		}
+		if i == nUses-1 {
+			u.Use = []string{"blocks", "rows"}[r.Intn(2)]
+		} else {
+			u.Use = []string{"blocks", "rows", "blocks", "rows", "cancelled-blocks", "cancelled-rows", "abandon"}[r.Intn(7)]
+		}
+		n := 2 + r.Intn(30)
+		alpha := []string{"", "a", "b", "a", "ab"}[:3+r.Intn(3)]
+		rows := make([][]string, n)
+		total := 0
+		for j := range rows {
+			rows[j] = make([]string, u.NCols)
+			total += 4
+			for c := range rows[j] {
+				rows[j][c] = alpha[r.Intn(len(alpha))]
+				total += len(rows[j][c]) + 2
+			}
+		}
+		u.Rows = hxRows(rows)
+		if total > maxTotal {
+			maxTotal = total
+		}
+		in.Uses = append(in.Uses, u)
+	}
+	switch r.Intn(6) {
+	case 0, 1, 2:
+		in.RunSize = 1 << 40
+	case 3:
+		in.RunSize = 1
+	default:
+		in.RunSize = uint64(maxTotal/(1+r.Intn(4)) + 1)
+	}
+	if r.Intn(4) == 0 {
+		for i := range in.Uses {
+			in.Uses[i].Via = "sortfile"
+		}
+	}
+	return in
+}
+
 func c19ReuseEmit(ctx *Ctx, in *c19ReuseInput, tags ...string) {
 	for i := range in.Uses {
 		u := &in.Uses[i]
@@ -735,6 +815,20 @@ func c19ReuseEmit(ctx *Ctx, in *c19ReuseInput, tags ...string) {
 				nt = true
 				tags = append(tags, "reset-after-spill:"+u["use"].(string))
 			}
+			if i < len(us)-1 && u["spilled"].(int) == 0 && u["use"].(string) != "abandon" &&
+				reflect.DeepEqual(in.Uses[i].PK, in.Uses[i+1].PK) && in.Uses[i].NCols != in.Uses[i+1].NCols {
+				// the sorter worked out the key of a table that fitted in memory, and the next table has
+				// the same key columns (or none) but another width
+				kind := "keyed"
+				if len(in.Uses[i].PK) == 0 {
+					kind = "keyless"
+				}
+				w := "wider"
+				if in.Uses[i+1].NCols < in.Uses[i].NCols {
+					w = "narrower"
+				}
+				tags = append(tags, "reset-after-unspilled-read:"+kind+":next-"+w)
+			}
 		}
 	}
 	ctx.Emit("sort-reuse", in, res, nt, append(tags, "reuse")...)
@@ -760,6 +854,15 @@ func runC19(ctx *Ctx) {
 		if f := c19WithFault(ctx.R, base); f != nil {
 			c19Emit(ctx, f)
 		}
+	}
+	switch ctx.Idx % 12 {
+	case 2, 6, 10:
+		// one sorter walking through small tables of one key kind and different widths (drawn after the
+		// case above, which therefore stays what it was)
+		c19ReuseEmit(ctx, genC19ReuseFamily(ctx.R), "reuse-one-key-kind")
+		return
+	}
+	switch ctx.Idx % 12 {
 	case 3:
 		// (each such case carries 64 KiB cells: in the thorough tier one in six of these indices, so
 		// that the volume handed to the driver stays moderate)
